@@ -378,6 +378,7 @@ func run(c *engine.Ctx) {
 	m.planarFamilies()
 	m.nonplanarFamilies()
 	m.referenceJudged()
+	m.twoHubs()
 	m.metamorphic()
 	m.viewSessions()
 }
@@ -1106,6 +1107,73 @@ func (m *mon) referenceJudged() {
 				}
 				if i < 4 {
 					c.Sample(label, map[string]interface{}{"n": g.N, "m": g.M(), "graph": gid(g), "planar": ct.Planar})
+				}
+			}
+		})
+	}
+}
+
+// twoHubs: two hub vertices over a forest of short paths (every path vertex joined to one or both hubs).  Both hubs lie
+// on many common faces, so fragments attached at exactly the two hubs keep long lists of admissible faces that shrink
+// one by one while edges between neighbouring path vertices split faces into ones holding a single hub — the
+// bookkeeping of those lists (removal, order, lookup) is what this family exercises; uniform random graphs almost
+// never produce more than three common faces.  Planar unless the seeded extra edges say otherwise; the verdict comes
+// with a verified certificate either way.
+func (m *mon) twoHubs() {
+	c := m.c
+	cases := c.Pick(12000, 100000)
+	per := 50
+	for u := 0; u*per < cases; u++ {
+		u := u
+		c.Unit(fmt.Sprintf("twohubs/%d", u), func() {
+			for i := u * per; i < (u+1)*per && i < cases && !c.Stopped(); i++ {
+				r := c.Rand("twohubs", i)
+				t := r.Range(6, 14)
+				if i%5 >= 3 {
+					t = r.Range(12, 34)
+				}
+				n := t + 2
+				g := rg.New(n)
+				A, B := t, t+1
+				pEdge, qa, qb := 0.2+0.6*r.Float(), 0.5+0.5*r.Float(), 0.5+0.5*r.Float()
+				for v := 0; v < t; v++ {
+					if v+1 < t && r.Bool(pEdge) {
+						g.Add(v, v+1)
+					}
+					a, b := r.Bool(qa), r.Bool(qb)
+					if !a && !b {
+						a = true
+					}
+					if a {
+						g.Add(v, A)
+					}
+					if b {
+						g.Add(v, B)
+					}
+				}
+				if r.Bool(0.2) {
+					g.Add(A, B)
+				}
+				for x := r.Intn(4) - 2; x > 0; x-- { // now and then edges that may destroy planarity
+					g.Add(r.Intn(t), r.Intn(t))
+				}
+				c.Obs("family:twohubs", 1)
+				g = g.Induced(r.Perm(n))
+				ct := planarity.Reference(g)
+				if ct.Planar {
+					c.Obs("reference_planar", 1)
+				} else {
+					c.Obs("reference_nonplanar", 1)
+				}
+				k := 6
+				if n <= 16 { // cheap: the order of the face splits depends on the labelling, so many of them
+					k = 30
+				}
+				if !m.labellings("two hubs over a forest of paths", g, ct, r, k) {
+					continue
+				}
+				if i < 2 {
+					c.Sample("two hubs over a forest of paths", map[string]interface{}{"n": g.N, "m": g.M(), "graph": gid(g), "planar": ct.Planar})
 				}
 			}
 		})
